@@ -133,7 +133,7 @@ func cmdVerify(args []string) {
 			if !ok && ob.Model != nil && *verbose {
 				keys := sortedKeys(ob.Model)
 				for _, k := range keys {
-					if strings.HasPrefix(k, "v_p_") || strings.Contains(k, "_r0") {
+					if strings.HasPrefix(k, "v_p_") || (strings.Contains(k, "_r0") && !strings.Contains(k, "noop")) {
 						fmt.Printf("      %s = %s\n", k, ob.Model[k])
 					}
 				}
